@@ -1,7 +1,10 @@
 '''C08 -- functional update interfaces change only what they address.'''
 import itertools
 
+import numpy as np
+
 from .. import lit
+from .. import zoo
 from ..core import Case
 
 ID = 'C08'
@@ -13,17 +16,494 @@ MANIFEST = {
              'Partial: the block-walking assign/drop/mask algorithms above the kernel are covered by API-level correspondence, not yet by a refinement theorem.'),
 }
 PROPERTY_FILES = ['Properties/C08.v']
-REFUTED_FILES = []
-MODEL_FILES = ['SF/PyDyn.v', 'Gen/Gen_util.v', 'Gen/Gen_type_blocks.v']
+REFUTED_FILES = ['Refuted/C08.v']
+MODEL_FILES = ['SF/PyDyn.v', 'Gen/Gen_util.v', 'Gen/Gen_type_blocks.v', 'SF/UpdateFrame.v']
 TRANSLATED = ['slice_to_ascending_slice', 'cols_to_slice']
-IMPORTS = 'Require Import SF.Prelude SF.PySlice SF.Dtype SF.PyDyn Gen.Gen_util Gen.Gen_type_blocks.'
 RULE = ('kernel stratum: exhaustive grid of slices (start/stop in None,-R..R; step in None,-3..3 without 0) x size 0..R '
         'through util.slice_to_ascending_slice called directly, compared with the regenerated Gallina definition; '
         'a case is non-trivial when the key has a negative step (the function is the identity otherwise); distinct = distinct (key,size)')
 ASSUMPTIONS = ['Python int = Z, // and % = Z.div / Z.modulo (floor)']
 EXHAUSTIVE = {'quick': False, 'thorough': False}
 
+# ---------------------------------------------------------------------------------------------- base data
+ROW_LABELS = ('x', 'y', 'z', 'w', 'v')
+COL_LABELS = ('a', 'b', 'c', 'd', 'e', 'f', 'g')
+NAME = 'nm'
 
+I8, F8, B1, U2, OB = np.dtype('int64'), np.dtype('float64'), np.dtype(bool), np.dtype('<U2'), np.dtype(object)
+
+
+def _cell(dt, i, j):
+    if dt == I8:
+        return 10 * (j + 1) + i
+    if dt == F8:
+        return 10.0 * (j + 1) + i + 0.5
+    if dt == B1:
+        return (i + j) % 2 == 0
+    if dt == U2:
+        return f'{"pqrstuv"[j]}{i}'
+    if dt == OB:
+        return (None, 'o', 7, 2.5, True)[(i + j) % 5]
+    raise ValueError(dt)
+
+
+def column(dt, j, nrows):
+    a = np.empty(nrows, dtype=dt)
+    for i in range(nrows):
+        a[i] = _cell(dt, i, j)
+    a.flags.writeable = False
+    return a
+
+
+# dtype patterns of the exhaustive strata: every block layout compatible with each is enumerated
+POOLS = {
+    'I': (I8, I8, I8, I8),          # every composition is a legal layout
+    'M': (I8, I8, F8, B1),
+    'S': (U2, I8, I8, OB),
+}
+
+
+def build_frame(dtypes, nrows, layout, cls=None, name=NAME):
+    import static_frame as sf
+    cols = [column(dt, j, nrows) for j, dt in enumerate(dtypes)]
+    return zoo.frame_from_columns(cols, layout, index=sf.Index(ROW_LABELS[:nrows]), columns=sf.Index(COL_LABELS[:len(dtypes)]),
+                                  name=name, cls=cls)
+
+
+def layout_lit(layout):
+    return lit.lst([f'({lit.z(w)}, {lit.b(d)})' for w, d in layout])
+
+
+def frame_columns(fr):
+    '''the columns as 1-D arrays read straight from the block arrays (no extraction code involved)'''
+    out = []
+    for b in fr._blocks._blocks:
+        if b.ndim == 1:
+            out.append(b)
+        else:
+            out.extend(b[:, j] for j in range(b.shape[1]))
+    return out
+
+
+def cols_lit(fr):
+    return lit.lst([f'({lit.dtype(a.dtype)}, {lit.vlist(lit.array_vals(a))})' for a in frame_columns(fr)])
+
+
+def oframe_lit(fr):
+    return f'(mk_oframe {lit.vlist(lit.labels(fr.index))} {lit.vlist(lit.labels(fr.columns))} {cols_lit(fr)} {lit.val(fr.name)})'
+
+
+def mframe_lit(fr):
+    '''the frame WITH its block layout'''
+    return (f'(mk_mframe {lit.vlist(lit.labels(fr.index))} {lit.vlist(lit.labels(fr.columns))} '
+            f'(build_tb {layout_lit(zoo.layout_of(fr))} {cols_lit(fr)}) {lit.val(fr.name)})')
+
+
+def ofl_lit(fr):
+    '''observed frame + observed layout'''
+    return f'({oframe_lit(fr)}, {layout_lit(zoo.layout_of(fr))})'
+
+
+def snapshot(obj):
+    '''everything observable of a container, to decide "left exactly as it was"'''
+    import static_frame as sf
+    if isinstance(obj, sf.Series):
+        return ('S', lit.oseries(obj), repr(obj.index.name), obj.values.flags.writeable)
+    return ('F', oframe_lit(obj), layout_lit(zoo.layout_of(obj)), repr(obj.index.name), repr(obj.columns.name),
+            tuple(b.flags.writeable for b in obj._blocks._blocks))
+
+
+# ---------------------------------------------------------------------------------------------- keys
+class K:
+    '''a positional key: kind in none|all|int|slice|list|array|mask'''
+    __slots__ = ('kind', 'v')
+
+    def __init__(self, kind, v=None):
+        self.kind, self.v = kind, v
+
+    def py(self):
+        if self.kind == 'none':
+            return None
+        if self.kind == 'all':
+            return slice(None)
+        if self.kind == 'int':
+            return int(self.v)
+        if self.kind == 'slice':
+            return slice(*self.v)
+        if self.kind == 'list':
+            return list(self.v)
+        if self.kind == 'array':
+            return np.array(self.v, dtype=np.int64)
+        if self.kind == 'mask':
+            return np.array(self.v, dtype=bool)
+        raise ValueError(self.kind)
+
+    def coq(self):
+        '''Coq ckey'''
+        if self.kind == 'all':
+            return 'CAll'
+        if self.kind == 'int':
+            return f'(CInt {lit.z(self.v)})'
+        if self.kind == 'slice':
+            return f'(CSlice {lit.slice_(slice(*self.v))})'
+        if self.kind in ('list', 'array'):
+            return '(CList ' + lit.lst([lit.z(x) for x in self.v]) + ')'
+        if self.kind == 'mask':
+            return '(CMask ' + lit.lst([lit.b(x) for x in self.v]) + ')'
+        raise ValueError(self.kind)
+
+    def ocoq(self):
+        '''Coq option ckey (None = no key given)'''
+        return 'None' if self.kind == 'none' else f'(Some {self.coq()})'
+
+    def desc(self):
+        return [self.kind, self.v if self.kind != 'slice' else list(self.v)]
+
+    def positions(self, n):
+        '''positions denoted on an axis of length n (None when the key is invalid there); order as given'''
+        try:
+            if self.kind == 'none':
+                return None
+            if self.kind == 'all':
+                return list(range(n))
+            if self.kind == 'int':
+                return [range(n)[self.v]]
+            if self.kind == 'slice':
+                return list(range(n)[slice(*self.v)])
+            if self.kind in ('list', 'array'):
+                return [range(n)[x] for x in self.v]
+            if self.kind == 'mask':
+                if len(self.v) != n:
+                    return None
+                return [i for i, x in enumerate(self.v) if x]
+        except (IndexError, ValueError):
+            return None
+
+
+NONE, ALL = K('none'), K('all')
+
+
+def has_negative(k):
+    if k.kind == 'int':
+        return k.v < 0
+    if k.kind in ('list', 'array'):
+        return any(x < 0 for x in k.v)
+    return False
+
+
+def slice_grid(n, R):
+    '''every slice with start/stop in None,-R..R and step in None,-3..3 (no 0), deduplicated by what decides the
+    walk: (positions denoted in key order, sign class of the bounds)'''
+    vals = [None] + list(range(-R, R + 1))
+    seen = set()
+    for a, b, c in itertools.product(vals, vals, (None, 1, 2, 3, -1, -2, -3)):
+        ps = tuple(range(n)[slice(a, b, c)])
+        sig = (ps, a is not None and a < 0, b is not None and b < 0, c is not None and c < 0, a is None, b is None)
+        if sig in seen:
+            continue
+        seen.add(sig)
+        yield K('slice', (a, b, c))
+
+
+def small_keys(n, tier, rng, slices=True):
+    '''valid keys of every kind on an axis of length n'''
+    out = [ALL]
+    out += [K('int', i) for i in range(-n, n)]
+    if slices:
+        out += list(slice_grid(n, 6 if tier == 'thorough' else 3))
+    # lists: every non-empty duplicate-free sequence of non-negative positions (order matters) for n <= 3, sampled above
+    seqs = [p for r in range(0, n + 1) for p in itertools.permutations(range(n), r)]
+    if len(seqs) > 20 and tier == 'quick':
+        seqs = seqs[:6] + rng.sample(seqs[6:], 14)
+    out += [K('list', list(p)) for p in seqs]
+    out += [K('array', list(p)) for p in seqs[1::3]]
+    # lists with negative positions (candidate finding D2 when not in positional order)
+    for p in seqs[1::2]:
+        q = [x - n if (i + len(p)) % 2 == 0 else x for i, x in enumerate(p)]
+        if any(x < 0 for x in q):
+            out.append(K('list', q))
+    out += [K('mask', list(m)) for m in itertools.product((False, True), repeat=n)]
+    return out
+
+
+# ---------------------------------------------------------------------------------------------- findings
+F_NEGLIST = 'C08-negative-positions-in-list-key'
+F_DROPALL = 'C08-drop-all-columns-with-rows'
+F_ZERO = 'C08-zero-columns'
+
+
+def asc_after_sorted(k, n):
+    '''True when sorted(raw key) denotes ascending positions (so the ascending block walk is sound)'''
+    if k.kind not in ('list', 'array'):
+        return True
+    ps = [x + n if x < 0 else x for x in sorted(k.v)]
+    return all(a <= b for a, b in zip(ps, ps[1:]))
+
+
+def call(fn):
+    try:
+        return fn(), None
+    except Exception as e:  # noqa
+        return None, e
+
+
+def res_lit(out, err, printer):
+    if err is not None:
+        return f'(Err {lit.s(lit.err_class(err))})'
+    return f'(Ok {printer(out)})'
+
+
+# ---------------------------------------------------------------------------------------------- drop / mask
+def frame_universe(ctx):
+    """(pool name, dtypes, layout, representative) of the exhaustive strata: every layout of every prefix of every pool;
+    `representative` marks three layouts per width (all 1-D, fewest blocks, a mixed one) that also get the wide key set
+    in the quick tier"""
+    for pname, dts in POOLS.items():
+        for m in range(0, 5):
+            if pname != 'I' and m < 2:
+                continue
+            lays = list(zoo.layouts_for(dts[:m]))
+            reps = {lays[0], lays[-1], lays[len(lays) // 2]} if pname == 'I' else {lays[len(lays) // 2]}
+            for layout in lays:
+                yield pname, dts[:m], layout, layout in reps
+
+
+ROW_KEYS = [NONE, ALL, K('int', 1), K('int', -1), K('slice', (1, None, None)), K('slice', (None, None, -2)),
+            K('list', [2, 0]), K('list', [-1, 0]), K('mask', [True, False, True]), K('list', [])]
+
+
+def key_plan(ctx, m, rep):
+    """(column key, [row keys]) pairs for one frame: every subset of the columns (as a Boolean mask) on EVERY layout;
+    the other key kinds (they differ only in how the key becomes ascending positions, which does not depend on the
+    layout) on every layout in the thorough tier and on the representative layouts in the quick tier"""
+    rot = 0
+    wide = rep or ctx.tier == 'thorough'
+    for ck in [NONE] + small_keys(m, ctx.tier, ctx.rng, slices=wide):
+        if not wide and ck.kind not in ('mask', 'none', 'all'):
+            continue
+        rot += 1
+        if wide and (ck.kind in ('none', 'all') or (ck.kind == 'list' and len(ck.v) == 1)):
+            yield ck, ROW_KEYS
+        elif ctx.tier == 'thorough':
+            yield ck, [NONE, ROW_KEYS[rot % len(ROW_KEYS)]]
+        else:
+            yield ck, [ROW_KEYS[rot % len(ROW_KEYS)]]
+
+
+def classify(op, ck, rk, m, nrows):
+    """finding tags decided from the INPUT alone"""
+    tags = {}
+    cps, rps = ck.positions(m), rk.positions(nrows)
+    if ck.kind in ('list', 'array') and has_negative(ck) and not asc_after_sorted(ck, m):
+        tags['finding'] = F_NEGLIST
+    elif op == 'drop' and rps and (m == 0 or (cps is not None and len(set(cps)) == m)):
+        tags['finding'] = F_DROPALL
+    elif op == 'mask' and m == 0:
+        tags['finding'] = F_ZERO
+    return tags
+
+
+def drop_mask_cases(ctx):
+    nrows = 3
+    for pname, dts, layout, rep in frame_universe(ctx):
+        m = len(dts)
+        f = build_frame(dts, nrows, layout)
+        flit = mframe_lit(f)
+        oflit = oframe_lit(f)
+        for ck, rks in key_plan(ctx, m, rep):
+            for rk in rks:
+                for op in ('drop', 'mask'):
+                    if op == 'mask' and rk.kind == 'none' and ck.kind == 'none':
+                        continue
+                    if op == 'drop' and m == 0 and ck.kind != 'none':
+                        continue        # deliberately rejected: 'cannot drop columns from zero-blocks'
+                    before = snapshot(f)
+                    key = rk.py() if ck.kind == 'none' else (rk.py(), ck.py())
+                    out, err = call(lambda: getattr(f, op).iloc[key])
+                    after = snapshot(f)
+                    cps = ck.positions(m)
+                    rps = rk.positions(nrows)
+                    tags = {'op': op, 'form': 'iloc', 'ckind': ck.kind, 'rkind': rk.kind}
+                    tags.update(classify(op, ck, rk, m, nrows))
+                    ctx.count(f'{op}:ck={ck.kind}', f'{op}:rk={rk.kind}', f'layout:{zoo.layout_str(layout) or "empty"}',
+                              'outcome:' + ('ok' if err is None else lit.err_class(err)))
+                    obs = res_lit(out, err, ofl_lit)
+                    if op == 'drop':
+                        mterm = f'res_same ofl_eqb (M_frame_drop {flit} {rk.ocoq()} {ck.ocoq()}) {obs}'
+                        sterm = f'res_agree of_eqb_ofl (S_frame_drop {oflit} {rk.ocoq()} {ck.ocoq()}) {obs}'
+                    else:
+                        mterm = f'res_same ofl_eqb_noname (M_frame_mask {flit} {rk.ocoq()} {ck.ocoq()}) {obs}'
+                        sterm = f'res_agree of_eqb_ofl_noname (S_frame_mask {oflit} {rk.ocoq()} {ck.ocoq()}) {obs}'
+                    yield Case(f'api:frame.{op}.iloc',
+                               {'pool': pname, 'columns': m, 'rows': nrows, 'layout': zoo.layout_str(layout), 'call': f'f.{op}.iloc[row_key, column_key]',
+                                'row_key': rk.desc(), 'column_key': ck.desc(),
+                                'observed': 'raises ' + type(err).__name__ if err is not None else [lit.labels(out.index), lit.labels(out.columns), out.values.tolist() if out.size else []]},
+                               m=mterm, s=sterm,
+                               py_fail=None if before == after else f'receiver changed by f.{op}.iloc[{key!r}]',
+                               tags=tags,
+                               nontrivial=bool(cps) or bool(rps))
+
+
+# ---------------------------------------------------------------------------------------------- label forms of a key
+def loc_key(k, labels, reorder=False):
+    """a label key with the same meaning as the positional key k on an axis with these labels; None when the key has
+    no label form (negative-step / out-of-range slices).  Boolean keys stay Boolean arrays (or become a Boolean
+    Series, reordered, when `reorder`)."""
+    import static_frame as sf
+    n = len(labels)
+    if k.kind == 'none':
+        return None
+    if k.kind == 'all':
+        return slice(None)
+    if k.kind == 'int':
+        return labels[k.v]
+    if k.kind in ('list', 'array'):
+        out = [labels[x] for x in k.v]
+        return out if k.kind == 'list' else np.array(out, dtype=object if any(not isinstance(x, str) for x in out) else None) if out else out
+    if k.kind == 'mask':
+        if reorder:
+            order = list(range(n))[::-1]
+            return sf.Series([k.v[i] for i in order], index=[labels[i] for i in order])
+        return np.array(k.v, dtype=bool)
+    if k.kind == 'slice':
+        a, b, c = k.v
+        if c not in (None, 1) or (a is not None and not 0 <= a < n) or (b is not None and not 0 < b <= n):
+            return None
+        ps = list(range(n)[slice(a, b, c)])
+        if not ps:
+            return None
+        return slice(None if a is None else labels[a], None if b is None else labels[b - 1])
+    raise ValueError(k.kind)
+
+
+# ---------------------------------------------------------------------------------------------- assign
+F_BOOLSORT = 'C08-assign-iloc-boolean-array-column-key'
+
+ELEMS = [-5, 2.5, 'zz', None, True, 0]
+
+
+def aval_elem(x):
+    return f'(AElem {lit.val(x)})'
+
+
+def aval_mat(B, rows_multi, cols_multi, nr_sel, nc_sel):
+    """B: object ndarray broadcast to the selection; -> AMat m with m[j][i] (j-th addressed column ascending, i-th row key element)"""
+    if rows_multi and cols_multi:
+        get = lambda i, j: B[i, j]
+    elif rows_multi:
+        get = lambda i, j: B[i]
+    elif cols_multi:
+        get = lambda i, j: B[j]
+    else:
+        get = lambda i, j: B[()]
+    return '(AMat ' + lit.lst([lit.vlist([get(i, j) for i in range(nr_sel)]) for j in range(nc_sel)]) + ')'
+
+
+def sel_shape(rk, ck, rps, cps):
+    shape = ()
+    if rk.kind != 'int':
+        shape += (len(rps),)
+    if ck.kind != 'int':
+        shape += (len(cps),)
+    return shape
+
+
+def unit_values(rk, ck, rps, cps, rot):
+    """(description, python value, Coq aval, sliceable) for unlabelled values that NumPy can broadcast to the selection"""
+    shape = sel_shape(rk, ck, rps, cps)
+    rows_multi, cols_multi = rk.kind != 'int', ck.kind != 'int'
+    e = ELEMS[rot % len(ELEMS)]
+    yield ('element', e, aval_elem(e), False)
+    cands = []
+    if shape:
+        # an array of the selection's shape, distinct cells
+        a = (np.arange(int(np.prod(shape)), dtype=np.int64).reshape(shape) + 100) if rot % 2 == 0 else \
+            (np.arange(int(np.prod(shape)), dtype=np.float64).reshape(shape) / 2 - 3)
+        cands.append(('array' + str(len(shape)) + 'd', a))
+        if len(shape) == 2:
+            cands.append(('array1d-along-columns', np.arange(shape[1], dtype=np.int64) - 50))
+        if cols_multi and not rows_multi:
+            cands.append(('tuple', tuple((7, 'tt', 1.5, None, False)[(rot + j) % 5] for j in range(shape[0]))))
+    for name, v in cands:
+        try:
+            B = np.broadcast_to(np.array(v, dtype=object) if not isinstance(v, tuple) else _obj1d(v), shape)
+        except ValueError:
+            continue
+        if B.size == 0:
+            continue
+        yield (name, v, aval_mat(B, rows_multi, cols_multi, len(rps), len(cps)), True)
+
+
+def _obj1d(t):
+    a = np.empty(len(t), dtype=object)
+    for i, x in enumerate(t):
+        a[i] = x
+    return a
+
+
+def vdt_lit(value):
+    from static_frame.core.util import dtype_from_element
+    return lit.dtype(dtype_from_element(value))
+
+
+RESOLVE = 'c08_resolve'
+
+
+def assign_tags(form, ck, rk, m, asarray_mask):
+    tags = {'op': 'assign', 'form': form, 'ckind': ck.kind, 'rkind': rk.kind}
+    if m == 0:
+        tags['finding'] = F_ZERO
+    elif ck.kind in ('list', 'array') and has_negative(ck) and not asc_after_sorted(ck, m):
+        tags['finding'] = F_NEGLIST
+    elif asarray_mask and sorted(ck.v) != list(ck.v):
+        tags['finding'] = F_BOOLSORT
+    return tags
+
+
+def assign_unit_cases(ctx):
+    nrows = 3
+    rot = 0
+    for pname, dts, layout, rep in frame_universe(ctx):
+        m = len(dts)
+        f = build_frame(dts, nrows, layout)
+        flit, oflit = mframe_lit(f), oframe_lit(f)
+        for ck, rks in key_plan(ctx, m, rep):
+            for rk in rks[:3]:
+                cps, rps = ck.positions(m), rk.positions(nrows)
+                if ck.kind == 'none':
+                    cps = list(range(m))
+                if rk.kind == 'none':
+                    rps = list(range(nrows))
+                if cps is None or rps is None:
+                    continue
+                rot += 1
+                key = rk.py() if ck.kind == 'none' else (rk.py(), ck.py())
+                for vname, value, aval, sliceable in unit_values(rk, ck, rps, sorted(cps), rot):
+                    if vname != 'element' and ck.kind in ('list', 'array') and sorted(cps) != cps:
+                        continue    # the pairing of an unlabelled array with a non-ascending key is not fixed by the property
+                    before = snapshot(f)
+                    out, err = call(lambda: f.assign.iloc[key](value))
+                    after = snapshot(f)
+                    tags = assign_tags('iloc', ck, rk, m, ck.kind == 'mask')
+                    tags['value'] = vname
+                    ctx.count(f'assign:ck={ck.kind}', f'assign:rk={rk.kind}', f'assign:value={vname}',
+                              'outcome:' + ('ok' if err is None else lit.err_class(err)))
+                    obs = res_lit(out, err, ofl_lit)
+                    is_slice = ck.kind != 'int'
+                    mterm = (f'res_same ofl_same (M_frame_assign_unit {flit} {rk.ocoq()} {ck.ocoq()} {lit.b(ck.kind in ("array", "mask"))} '
+                             f'{lit.b(is_slice)} {lit.b(sliceable)} {aval} {vdt_lit(value)} {RESOLVE}) {obs}')
+                    sterm = (f'S_frame_assign_ok {oflit} {rk.ocoq()} {ck.ocoq()} {aval} VNaN {oframe_lit(out)}' if err is None else 'false')
+                    yield Case('api:frame.assign.iloc(unit)',
+                               {'pool': pname, 'columns': m, 'rows': nrows, 'layout': zoo.layout_str(layout),
+                                'call': 'f.assign.iloc[row_key, column_key](value)', 'row_key': rk.desc(), 'column_key': ck.desc(),
+                                'value': vname + ':' + repr(value if not isinstance(value, np.ndarray) else value.tolist()),
+                                'observed': 'raises ' + type(err).__name__ if err is not None else out.values.tolist()},
+                               m=mterm, s=sterm,
+                               py_fail=None if before == after else f'receiver changed by f.assign.iloc[{key!r}]',
+                               tags=tags, nontrivial=bool(cps) and bool(rps))
+
+
+# ---------------------------------------------------------------------------------------------- kernels
 def kernel_cases(ctx):
     from static_frame.core.util import slice_to_ascending_slice
     from static_frame.core.type_blocks import TypeBlocks
@@ -65,5 +545,12 @@ def kernel_cases(ctx):
                        tags={'kernel': 'cols_to_slice'}, nontrivial=len(bundle) > 1)
 
 
+IMPORTS = ('Require Import SF.Prelude SF.PySlice SF.Dtype SF.Value SF.PyDyn SF.Blocks SF.UpdateSpec SF.BlocksUpdate SF.UpdateFrame '
+           'Gen.Gen_util Gen.Gen_type_blocks.\n'
+           'Definition c08_resolve (a b : dtype) : dtype := match resolve_dtype (PDtype a) (PDtype b) with PDtype r => r | _ => DObj end.')
+
+
 def cases(ctx):
     yield from kernel_cases(ctx)
+    yield from drop_mask_cases(ctx)
+    yield from assign_unit_cases(ctx)
